@@ -1206,7 +1206,13 @@ fn write_central_directory_header<T: Write>(writer: &mut T, file: &ZipFileData) 
         1u16 << 11
     } else {
         0
-    } | if file.encrypted { 1u16 << 0 } else { 0 };
+    } | if file.encrypted { 1u16 << 0 } else { 0 }
+        | if file.using_data_descriptor {
+            // an entry re-emitted by `new_append` keeps its data descriptor: its local header still announces one
+            1u16 << 3
+        } else {
+            0
+        };
     writer.write_u16::<LittleEndian>(flag)?;
     // compression method
     #[allow(deprecated)]
